@@ -336,6 +336,7 @@ pub struct Inner {
     err_mark: u64,
     pub total_polls: u64,
     pub item_polls: u64,
+    item_marks: Vec<u64>,
     pub flip_at: Option<u64>,
     pub steps: u64,
     pub switches: u64,
@@ -362,6 +363,7 @@ pub struct World {
 pub struct Shutdown;
 
 thread_local! {
+    static LAST_PANIC: std::cell::RefCell<Option<(String, String)>> = const { std::cell::RefCell::new(None) };
     static CTX_W: Cell<*const World> = const { Cell::new(std::ptr::null()) };
     static CTX_ME: Cell<usize> = const { Cell::new(usize::MAX) };
 }
@@ -876,6 +878,8 @@ where
             let is_shutdown = matches!(&r, Err(e) if e.is::<Shutdown>());
             if r.is_err() && !is_shutdown {
                 g.th[id].panicked = true;
+                let (msg, loc) = LAST_PANIC.with(|c| c.borrow_mut().take()).unwrap_or_else(|| ("<panic without hook record>".into(), String::new()));
+                g.ev(id, EvK::Panic { msg, loc });
             }
             *res.lock().unwrap() = Some(r);
             g.th[id].st = St::Done;
@@ -1001,6 +1005,10 @@ pub fn out_write(s: &str) {
                 i.th[me].outs_after_false += 1;
             }
             let polls = i.th[me].polls;
+            if line.starts_with("info depth") {
+                let p = i.item_polls;
+                i.item_marks.push(p);
+            }
             i.ev(me, EvK::Out { line, polls, mixed });
         }
     });
@@ -1079,12 +1087,16 @@ pub fn gui_bestmoves() -> u64 {
 pub fn item_begin(flip_at: Option<u64>) {
     with(|i, _| {
         i.item_polls = 0;
+        i.item_marks.clear();
         i.flip_at = flip_at;
         i.th[0].polls = 0;
         i.th[0].saw_false_at = None;
         i.th[0].loads_after_false = 0;
         i.th[0].outs_after_false = 0;
     });
+}
+pub fn item_info_marks() -> Vec<u64> {
+    with(|i, _| i.item_marks.clone())
 }
 pub fn note(text: String) {
     with(|i, me| i.ev(me, EvK::Note { text }));
@@ -1112,13 +1124,9 @@ pub fn install_panic_hook() {
                 .or_else(|| info.payload().downcast_ref::<&str>().map(|s| s.to_string()))
                 .unwrap_or_else(|| "<non-string panic payload>".into());
             let loc = info.location().map(|l| format!("{}:{}:{}", l.file(), l.line(), l.column())).unwrap_or_default();
-            let w = world();
-            let me = me();
-            if let Ok(mut g) = w.m.try_lock() {
-                g.ev(me, EvK::Panic { msg, loc });
-            } else {
-                eprintln!("rbsim: panic inside the simulator runtime: {} at {}", msg, loc);
-            }
+            // recorded into the history by the thread's own unwind handler (the hook must not touch the
+            // world lock: parked threads take it briefly on every wake-up)
+            LAST_PANIC.with(|c| *c.borrow_mut() = Some((msg, loc)));
         } else {
             prev(info);
         }
@@ -1203,6 +1211,7 @@ where
         err_mark: 0,
         total_polls: 0,
         item_polls: 0,
+        item_marks: vec![],
         flip_at: None,
         steps: 0,
         switches: 0,
